@@ -340,6 +340,9 @@ fn oracle(c: &Case, ids: &[usize], moves: &[usize], rewound: &[usize]) -> Option
 }
 
 pub fn run_op(ctx: &mut Ctx, op: &str) {
+    if ctx.hang_limit_reached() {
+        return;
+    }
     let Some(c) = parse_op(op) else {
         ctx.record(op.to_string(), "bad-op".into(), false);
         return;
